@@ -87,7 +87,7 @@ def acceptor_reopen_rule(run):
             if a.kind == 'assign' and is_node(a.site):
                 rhs = a.site.get('rhs') if a.site['k'] == 'bin' else (a.site.get('args') or [None, None])[1]
                 v = q.const_eval(f, rhs, lambda t: None) if is_node(rhs) else None
-                if isinstance(v, int) and v <= 0:
+                if isinstance(v, int) and not isinstance(v, bool) and v < 0:
                     lim.append(a.site)
         lim += [c for c in cl if not q.guards_at(f, c)]
         run.check(bool(lim) and q.on_all_paths(f, lim), 'R7', 'reopen-not-listening', f.norm + f.sig, f.loc(),
@@ -257,8 +257,12 @@ def check(run):
     il = fx.fn1(A + '::internal_is_listening')
     run.touch(il)
     r = q.returns(il)
-    run.check(len(r) == 1 and q.render(il, r[0].get('e')) == '(m_queue_size_limit > 0)', 'R5', 'listening-predicate', A + '::internal_is_listening', il.loc(),
-              'internal_is_listening() is not m_queue_size_limit > 0', 'm_queue_size_limit > 0')
+    # decided by value, not by text: the predicate is true for every limit a successful listen() stores (0, 1, 20 - listen(0)
+    # reports success too) and false for the not-listening value -1
+    vals = [q.const_eval(il, r[0].get('e'), lambda t, v=v: v if t.replace('this->', '') == 'm_queue_size_limit' else None) for v in (-1, 0, 1, 20)] if len(r) == 1 else []
+    run.check(vals == [False, True, True, True], 'R5', 'listening-predicate', A + '::internal_is_listening', il.loc(),
+              'internal_is_listening() answers %s for the limits (-1, 0, 1, 20): %s' % (vals, 'a listen(0) that reported success leaves the acceptor refusing every connect while its accept stays pending' if vals[1:2] == [False] else 'the not-listening value -1 (closed / never listened) counts as listening, or a positive limit does not'),
+              'false for -1, true for every limit listen() stores')
 
     run.clause('arrival order: m_incoming_conns is appended at the back, read and erased at the front, cleared on the closed path; nothing else')
     KINDS = {
@@ -365,8 +369,8 @@ def check(run):
         for a in q.field_accesses(g, {A + '::m_queue_size_limit'}):
             if a.kind == 'assign' and is_node(a.site) and a.site['k'] == 'bin':
                 v = q.const_eval(g, a.site['rhs'], lambda t: None)
-                run.check(isinstance(v, int) and not isinstance(v, bool) and v <= 0, 'R7', 'only-listen-listens', g.norm, g.loc(a.site),
-                          '%s stores %s in m_queue_size_limit: the acceptor starts queueing connections without listen() having been called' % (g.norm.split('::')[-1], q.render(g, a.site['rhs'])), 'stores a non-positive constant')
+                run.check(isinstance(v, int) and not isinstance(v, bool) and v < 0, 'R7', 'only-listen-listens', g.norm, g.loc(a.site),
+                          '%s stores %s in m_queue_size_limit: the acceptor starts queueing connections without listen() having been called' % (g.norm.split('::')[-1], q.render(g, a.site['rhs'])), 'stores a negative constant (not listening)')
     cl = fx.fn1(A + '::close', '(boost::system::error_code &)')
     run.touch(cl)
     w = [a for a in q.field_accesses(cl, {A + '::m_queue_size_limit'}) if a.kind == 'assign']
